@@ -12,6 +12,12 @@ T == Trace[r]
 C20_NameOrder == T.kind = "names" =>
     /\ T.names[1] = Name(T.i0)
     /\ \A j \in 1..(Len(T.names) - 1) : T.names[j + 1] = Succ(T.names[j])
+\* "no two labels share a TeX colour or text macro": in a TikZ export the k-th datum's label, link and dot use the k-th name
+\* (so the names of one drawing are pairwise different) - also when a datum is entered twice
+C20_MacroNamesPerDatum == T.kind = "texnames" =>
+    /\ T.err = ""
+    /\ Len(T.labels) = T.n /\ Len(T.links) = T.n /\ Len(T.dots) = T.n
+    /\ \A k \in 1..T.n : T.labels[k] = Name(k - 1) /\ T.links[k] = Name(k - 1) /\ T.dots[k] = Name(k - 1)
 C20_ColoursAgree == T.kind = "hex" =>
     /\ ValidCode(T.code)
     /\ T.err = ""
